@@ -183,6 +183,18 @@ pub fn u64_from_be_bytes(s: &[u8]) -> (r: u64) requires s@.len() == 8, ensures b
 #[verifier::external_body]
 pub fn u64_from_le_bytes(s: &[u8]) -> (r: u64) requires s@.len() == 8, ensures le64(r) == s@ { u64::from_le_bytes(core::convert::TryInto::try_into(s).unwrap()) }
 
+// array forms, target of the common rewrite R-bytes-arr (`u64::from_be_bytes(X)` -> `crate::vstubs::u64_from_be_arr(X)`): Verus cannot
+// give the std functions a specification (their array length is an unevaluated constant), so changed code that calls them directly
+// is kept within reach through these wrappers whose bodies are the std calls (ASSUMED: they are the big-/little-endian encodings)
+#[verifier::external_body]
+pub fn u64_from_be_arr(bytes: [u8; 8]) -> (r: u64) ensures be64(r) == bytes@ { u64::from_be_bytes(bytes) }
+#[verifier::external_body]
+pub fn u64_from_le_arr(bytes: [u8; 8]) -> (r: u64) ensures le64(r) == bytes@ { u64::from_le_bytes(bytes) }
+#[verifier::external_body]
+pub fn u32_from_be_arr(bytes: [u8; 4]) -> (r: u32) ensures be32(r) == bytes@ { u32::from_be_bytes(bytes) }
+#[verifier::external_body]
+pub fn u32_from_le_arr(bytes: [u8; 4]) -> (r: u32) ensures le32(r) == bytes@ { u32::from_le_bytes(bytes) }
+
 /// R-hoist of `v.extend(bytes.chunks_exact(8).filter_map(|s| s.try_into().ok()).map(u64::from_be_bytes))`
 #[verifier::external_body]
 pub fn extend_u64s_from_be(v: &mut Vec<u64>, bytes: &[u8])
